@@ -1,6 +1,7 @@
 package main
 
 import (
+	"path/filepath"
 	"bufio"
 	"fmt"
 	"go/ast"
@@ -227,6 +228,52 @@ func listUnits(path string) ([]UnitHeader, error) {
 	return out, nil
 }
 
+// importedContracts: contracts brought in by `use` (qualified name -> origin "file:unit").
+var importedContracts = map[string]string{}
+
+var modulePathCache string
+
+func modulePath() string {
+	if modulePathCache == "" {
+		b, _ := os.ReadFile(filepath.Join(repoDir(), "go.mod"))
+		for _, l := range strings.Split(string(b), "\n") {
+			if strings.HasPrefix(l, "module ") {
+				modulePathCache = strings.TrimSpace(strings.TrimPrefix(l, "module "))
+			}
+		}
+	}
+	return modulePathCache
+}
+
+func pkgPathOfFile(file string) string {
+	rel, err := filepath.Rel(repoDir(), filepath.Dir(file))
+	if err != nil || rel == "." {
+		return modulePath()
+	}
+	return modulePath() + "/" + filepath.ToSlash(rel)
+}
+
+// qualifyName turns a package-relative function name into the form go/ssa prints for it.
+func qualifyName(short, pkg string) string {
+	switch {
+	case strings.HasPrefix(short, "invoke:"), strings.Contains(short, "/"):
+		return short
+	case strings.HasPrefix(short, "(*"):
+		if strings.Contains(strings.SplitN(short, ")", 2)[0], ".") {
+			return short
+		}
+		return "(*" + pkg + "." + short[2:]
+	case strings.HasPrefix(short, "("):
+		if strings.Contains(strings.SplitN(short, ")", 2)[0], ".") {
+			return short
+		}
+		return "(" + pkg + "." + short[1:]
+	case strings.Contains(short, "."):
+		return short // already package-qualified (extern of the standard library)
+	}
+	return pkg + "." + short
+}
+
 // externContracts: names of contracts declared with `extern` (assumed, never proved here).
 var externContracts = map[string]bool{}
 
@@ -268,6 +315,33 @@ func parseContracts(path string, unit string) (map[string]*Contract, error) {
 		}
 		fields := strings.Fields(line)
 		switch fields[0] {
+		case "use":
+			// use <file relative to the repository>:<unit> — import the contracts of another unit (of another package);
+			// they are assumed here and proved where that unit is verified. Names are qualified with that package's path.
+			parts := strings.SplitN(fields[1], ":", 2)
+			if len(parts) != 2 {
+				return nil, fmt.Errorf("%s:%d: use <file>:<unit>", path, ln)
+			}
+			other := filepath.Join(repoDir(), parts[0])
+			imp, err := parseContracts(other, parts[1])
+			if err != nil {
+				return nil, fmt.Errorf("%s:%d: use: %v", path, ln, err)
+			}
+			if len(imp) == 0 {
+				return nil, fmt.Errorf("%s:%d: use: unit %s of %s has no contracts", path, ln, parts[1], parts[0])
+			}
+			pp := pkgPathOfFile(other)
+			for name, ct := range imp {
+				q := qualifyName(name, pp)
+				if name != ct.Func {
+					continue
+				}
+				ct.Func = q
+				out[q] = ct
+				importedContracts[q] = parts[0] + ":" + parts[1]
+			}
+			cur = nil
+			continue
 		case "ghost":
 			// ghost name int
 			ghostInts[fields[1]] = true
